@@ -22,6 +22,10 @@ def run(rep):
     rep.guard(c02.p8, rep, w)     # the tuple lock shared by Display and has_hash: left set, an unhashable tuple is accepted as a key (and panics in Hash)
     import c04
     rep.guard(c04.b2w, rep, w, 'H8')     # the entry count of a map literal is widened before it is doubled (128..255 entries)
+    import c04_narrow
+    rep.guard(c04_narrow.b4, rep, w)     # ... also on the compiler's side: the operand byte is not a truncated count
+    import c05
+    rep.guard(c05.e8, rep, w, 'C12')     # key equality is the language's `==`: equal keys must hash alike, so no special case may be added on one side only
 
 
 def discr_switches(f, adt_path):
